@@ -163,8 +163,8 @@ theorem readBatches_append (d : Disk) (a b : List BatchRef) (A B : List Update)
 
 /-- `flush`'s metadata rename: the new batch becomes referenced while the WAL still holds the same updates (the
     defect window: content `X ++ es ++ es`) -/
-theorem Img.rename_flush_meta {s d m X es} (h : Img s d (some m) X es) (m' : ShardMeta) (id : Nat) (up len : Nat)
-    (hm' : m' = addBatch m { id := id, upper := up, len := len })
+theorem Img.rename_flush_meta {s d m X es} (h : Img s d (some m) X es) (m' : ShardMeta) (id : Nat) (b0 : BatchRef)
+    (hn' : m'.name = s) (hbs : m'.batches = m.batches ++ [b0]) (hid : b0.id = id)
     (hbatch : itemsAt d (.batch id) = some [.whole (.batch es)])
     (hsrc : itemsAt d (.metaTmp (metaFile s)) = some [.whole (.smeta m')]) :
     Img s (apply d (.rename (.metaTmp (metaFile s)) (.smeta (metaFile s)))) (some m') (X ++ es) es := by
@@ -180,17 +180,16 @@ theorem Img.rename_flush_meta {s d m X es} (h : Img s d (some m) X es) (m' : Sha
   · intro hm; cases hm
   · intro mm hm
     cases hm
-    refine ⟨by rw [hm']; exact h1, by rw [itemsAt_rename, hsrc]; simp, fun f hf => ?_, ?_⟩
+    refine ⟨hn', by rw [itemsAt_rename, hsrc]; simp, fun f hf => ?_, ?_⟩
     · rw [itemsAt_rename, hsrc]
       have : ¬ metaFile s = f := fun e => hf e.symm
       simp [this, h3 f hf]
-    · rw [hm']
-      simp only [addBatch]
+    · rw [hbs]
       apply readBatches_append
       · rw [← h4]; exact readBatches_congr _ (fun b _ => hkeep _ (by simp) (by simp))
       · have : readBatch (apply d (.rename (.metaTmp (metaFile s)) (.smeta (metaFile s)))) id = some es := by
           simp [readBatch, readDoc_eq, hkeep (.batch id) (by simp) (by simp), hbatch]
-        simp [readBatches, this]
+        simp [readBatches, hid, this]
   · rcases h.wal with ⟨hw, he⟩ | hw
     · left; exact ⟨by rw [hkeep _ (by simp) (by simp)]; exact hw, he⟩
     · right; rw [hkeep _ (by simp) (by simp)]; exact hw
